@@ -52,6 +52,11 @@ func checkC06(c *Ctx) {
 		if strings.Contains(body, ".m2") {
 			src += "/** @param? p\n @param? b */\n{template .m2}\n({$p ?: ''}{$b ?: ''})\n{/template}\n"
 		}
+		if strings.HasPrefix(body, "LAST:") {
+			// the entry template is the last thing in its file and the body the last thing in it
+			body = strings.TrimPrefix(body, "LAST:")
+			src = "{namespace v}\n/** @param? p\n @param? b */\n{template .m2}\n({$p ?: ''}{$b ?: ''})\n{/template}\n" + doc + "{template .m}\n" + useAll + body + "{/template}"
+		}
 		ij := exprIJ
 		if noIJ {
 			ij = nil
@@ -146,6 +151,17 @@ func checkC06(c *Ctx) {
 	for _, b := range []string{"{call .m2 data=\"$und.b.c\"/}", "{call .m2}{param key=\"p\" value=\"$und.b\"/}{/call}", "{css $und.b, cls}", "{call .m2 data=\"$n.x.y\"/}", "{call .m2 data=\"1 < 'a'\"/}",
 		strings.Repeat("filler text {$s}\n", 6) + "{call .m2 data=\"$und.b.c\"/}"} {
 		render(b, false, "quoted attribute")
+		render("LAST:"+b, false, "quoted attribute")
+	}
+	// ... with the failing sub-expression late in a long attribute of the last tag of the file
+	for _, b := range []string{
+		"{call .m2 data=\"augmentMap($mp, $und.settings.more.and.more.and.even.more.than.that)\"/}",
+		"{call .m2}{param key=\"p\" value=\"'some long string value ' + 'another long string value ' + $und.b.c\"/}{/call}",
+		"{css 'a long css component expression ' + 'and some more of it ' + $und.b.c, cls}",
+		"{call .m2 data=\"['key one': 'value one', 'key two': 'value two', 'key three': $n.x.y]\"/}",
+	} {
+		render(b, false, "quoted attribute")
+		render("LAST:"+b, false, "quoted attribute")
 	}
 	// (d) every directive x arity x argument classes
 	dirs := []string{"insertWordBreaks", "changeNewlineToBr", "truncate", "id", "noAutoescape", "escapeHtml", "escapeUri", "escapeJsString", "bidiSpanWrap", "bidiUnicodeWrap", "json", "nosuchdir"}
